@@ -256,8 +256,10 @@ def run_history(fam, kind, impl, mode, rng, rec, h):
     for step in range(n):
         try:
             present = list(t.keys())
+            families.sort_keys(present)
         except Exception:
-            present = []
+            rec.ev('history-cut-unsortable-contents')
+            return
         w = None
         if is_tree:
             try:
